@@ -67,6 +67,11 @@ type handler1 struct {
 	// asleep/awake state and guards pktBuffer (packets are sent from both the
 	// MQTT-SN and the MQTT receive loops).
 	snSendMutex sync.Mutex
+	// Serializes sending to the MQTT broker: packets are sent from the MQTT-SN
+	// receive loop, from the retry timers and from the sleep pinger, and one
+	// ConnWithContext.Write can consist of several writes to the connection.
+	// (A one-element channel: a write to a slow broker can take long.)
+	mqttSendLock chan struct{}
 	// TopicIDs of the topics the gateway is registering at the client right
 	// now (REGISTER sent, REGACK not received yet), guarded by
 	// registrationMutex.
@@ -137,6 +142,8 @@ func newHandler(cfg *handlerConfig, predefinedTopics topics.PredefinedTopics,
 		brokerTransactions: transactions.NewTransactionStore(),
 
 		pendingRegistrations: make(map[string]uint16),
+
+		mqttSendLock: make(chan struct{}, 1),
 	}
 
 	return h
@@ -1162,6 +1169,8 @@ func (h *handler1) mqttSend(pkt mqPkts.ControlPacket) error {
 	if err != nil {
 		return err
 	}
+	h.mqttSendLock <- struct{}{}
+	defer func() { <-h.mqttSendLock }()
 	_, err = h.mqttConn.Write(buff.Bytes())
 	if err != nil {
 		return err
